@@ -76,6 +76,39 @@ def dispatch(reg, qual, names, choose, contracts):
     reg.models[qual] = model
 
 
+def by_output(reg, c, result='bytes'):
+    """call-site use of the contract of a REAL method that has an `output=None` parameter and lists `output` in modifies:
+    with output=None there is nothing to havoc (the engine refuses a None frame target), so calls are routed to a clone
+    without that frame entry.  The contract under proof is `c` itself in both cases."""
+    import copy
+    from vf.pyvc import loader
+    from vf.pyvc.interp import FuncV
+    reg.add(c)
+    c2 = copy.copy(c)
+    c2.target = c.target + '#output=None'
+    c2.params = dict({'self': 'any'}, **c.params)
+    c2.modifies = [m for m in c.modifies if m != 'output']
+    c2.assumed = None
+    c2.result = result            # with output=None the method returns the data; with output= it returns None (c.result)
+    reg.contracts[c2.target] = c2
+
+    def model(E, st, args, kwargs):
+        fi = loader.find_function(c.target)
+        outs = []
+        for b in E.bind_params(FuncV(fi), args, kwargs, st):
+            if b[0] == 'raise':
+                outs.append(b)
+                continue
+            _, s1, env = b
+            names = list(c2.params.keys())
+            if env.get('output') is None:
+                outs.extend(apply_contract(E, c2, s1, [env[n] for n in names], {}))
+            else:
+                outs.extend(apply_contract(E, c, s1, [env[n] for n in [x.arg for x in fi.node.args.args]], {}))
+        return outs
+    reg.models[c.target] = model
+
+
 def _ctr_limit_expr(bs, cl):
     """bs * 256**cl for cl in 1..15 as a nested ite (exact, linear for the solver); -1 = no limit below 2**128 bytes"""
     e = '-1'
@@ -169,19 +202,32 @@ def add_block_cipher(reg, bs="int"):
     common = {'id': 'result.g_fid == %s and result.g_key == %s' % (fid, key),
               'layout': 'result.g_plen == len(nonce) and result.g_pos == 0 and result.g_dir == 0',
               'limit': 'result.g_limit == ' + _ctr_limit_expr('self.block_size', cl)}
+    why_ctr = 'Cipher._create_cipher -> _create_ctr_cipher (served under C02/C11; bounded: bounded/modes.py CTR)'
     new_ctr_int = Contract(FACTORY + '.new#ctr_int', params={'self': 'obj:' + FACTORY, 'key': 'bytes', 'mode': 'int',
                                                             'initial_value': 'int', 'nonce': 'bytes'},
                            raises={'ValueError': ('iff', 'len(nonce) >= self.block_size or initial_value > pow2(8 * %s) - 1' % cl)},
                            result='obj:' + CTR,
                            ensures=dict(common, icb='len(result.g_icb) == self.block_size and result.g_icb[:len(nonce)] == bytes(nonce) and '
                                                     'be(result.g_icb[len(nonce):]) == initial_value'),
-                           modifies=[], assumed='Cipher._create_cipher -> _create_ctr_cipher (served under C02/C11; bounded: bounded/modes.py CTR)')
+                           modifies=[], assumed=why_ctr)
+    # the same contract for a counter field of exactly K bytes (chosen when the path condition fixes block_size - len(nonce)):
+    # everything explicit, no symbolic exponent
+    ctr_int_k = {}
+    for K in range(1, 17):
+        ctr_int_k['ctr_int_%d' % K] = Contract(
+            FACTORY + '.new#ctr_int_%d' % K, params={'self': 'obj:' + FACTORY, 'key': 'bytes', 'mode': 'int', 'initial_value': 'int', 'nonce': 'bytes'},
+            requires=['self.block_size - len(nonce) == %d' % K],
+            raises={'ValueError': ('iff', 'initial_value > %d' % (256 ** K - 1))}, result='obj:' + CTR,
+            ensures={'id': common['id'], 'layout': common['layout'],
+                     'limit': 'result.g_limit == ' + ('-1' if K == 16 else 'self.block_size * %d' % 256 ** K),
+                     'icb': 'result.g_icb == bytes(nonce) + spec.aead1.ibe(initial_value, %d)' % K},
+            modifies=[], assumed=why_ctr)
     new_ctr_bytes = Contract(FACTORY + '.new#ctr_bytes', params={'self': 'obj:' + FACTORY, 'key': 'bytes', 'mode': 'int',
                                                                 'initial_value': 'bytes', 'nonce': 'bytes'},
                              raises={'ValueError': ('iff', 'len(nonce) >= self.block_size or len(initial_value) != %s' % cl)},
                              result='obj:' + CTR,
                              ensures=dict(common, icb='result.g_icb == bytes(nonce) + bytes(initial_value)'),
-                             modifies=[], assumed='Cipher._create_cipher -> _create_ctr_cipher (served under C02/C11; bounded: bounded/modes.py CTR)')
+                             modifies=[], assumed=why_ctr)
 
     def choose(E, st, env):
         mode = env.get('mode')
@@ -191,10 +237,19 @@ def add_block_cipher(reg, bs="int"):
             return 'cbc'
         if mode == MODES['MODE_CTR'] and set(env) == {'self', 'key', 'mode', 'initial_value', 'nonce'}:
             iv = env['initial_value']
-            return 'ctr_int' if is_intlike(iv) else 'ctr_bytes'
+            if not is_intlike(iv):
+                return 'ctr_bytes'
+            nonce = env['nonce']
+            if isinstance(nonce, Ref):
+                nonce = st.heap[nonce.oid].items
+            clen = zint(st.heap[env['self'].oid].fields['block_size']) - z3.Length(zbytes(nonce))
+            for K in (4, 16, 8, 12, 1, 2, 3, 5, 6, 7, 9, 10, 11, 13, 14, 15):
+                if E.implied(st, clen == K):
+                    return 'ctr_int_%d' % K
+            return 'ctr_int'
         return None
     dispatch(reg, FACTORY + '.new', ['self', 'key', 'mode', 'iv'], choose,
-             {'ecb': new_ecb, 'cbc': new_cbc, 'ctr_int': new_ctr_int, 'ctr_bytes': new_ctr_bytes})
+             dict({'ecb': new_ecb, 'cbc': new_cbc, 'ctr_int': new_ctr_int, 'ctr_bytes': new_ctr_bytes}, **ctr_int_k))
 
 
 def add_ctr(reg):
